@@ -33,7 +33,7 @@ Range(s) == {s[i] : i \in 1..Len(s)}
 AnswerKinds == {"ok", "err", "connerr", "closed"}
 
 VARIABLES conn,      \* c -> [alive, idle, inflight, free, highest, held]
-          hb,        \* c -> state of this round's heartbeat request: none/sent/ok/err/connerr/closed/full/timedout/late
+          hb,        \* c -> state of this round's heartbeat request: none/sent/ok/err/connerr/closed/full/busy/timedout/late
           hbid,      \* c -> stream id of the heartbeat request (or MaxId+1)
           pc,        \* between / send / wait / fail / ended
           todo, futures, failed,   \* sequences of connection names: loop positions of the three phases
@@ -51,10 +51,15 @@ Fresh(k, idle) ==
     [alive |-> "ok", idle |-> idle, inflight |-> k,
      free |-> IF k >= InitFree THEN <<>> ELSE [i \in 1..(InitFree - k) |-> k + i - 1],
      highest |-> IF k > InitFree THEN k - 1 ELSE InitFree - 1,
-     held |-> TRUE]
+     held |-> TRUE,
+     writable |-> TRUE]      \* Connection._socket_writable: the reactor clears it while the write buffer is backed up
 Dead(how) == [Fresh(0, TRUE) EXCEPT !.alive = how]
 
+\* a stuck connection: idle, socket not writable -> send_msg raises ConnectionBusy (not a ConnectionException)
+Stuck(k) == [Fresh(k, TRUE) EXCEPT !.writable = FALSE]
+
 InitConn == {Fresh(k, i) : k \in Levels, i \in BOOLEAN} \cup {Dead("defunct"), Dead("closed")}
+            \cup {Stuck(k) : k \in Levels}
 
 Zero == [c \in Conns |-> 0]
 Act(n, c, k) == [name |-> n, c |-> c, kind |-> k]
@@ -91,10 +96,19 @@ SendStep ==
        /\ IF r.alive # "ok"
           THEN /\ retCnt' = [retCnt EXCEPT ![c] = @ + 1]
                /\ conn' = HandBack(c)
-               /\ UNCHANGED <<hb, hbid, futures, sentCnt>>
+               /\ UNCHANGED <<hb, hbid, futures, sentCnt, failed>>
           ELSE IF ~r.idle
           THEN /\ conn' = [conn EXCEPT ![c].idle = TRUE]                   \* reset_idle, nothing sent
-               /\ UNCHANGED <<hb, hbid, futures, sentCnt, retCnt>>
+               /\ UNCHANGED <<hb, hbid, futures, sentCnt, retCnt, failed>>
+          ELSE IF r.inflight < MaxId /\ ~r.writable
+          THEN \* HeartbeatFuture.__init__: in_flight += 1, get_request_id(), then send_msg raises ConnectionBusy:
+               \* nothing written; run() catches it ("except Exception") and puts the connection on failed_connections
+               /\ conn' = [conn EXCEPT ![c].inflight = @ + 1,
+                                       ![c].free = IF r.free # <<>> THEN Tail(r.free) ELSE <<>>,
+                                       ![c].highest = IF r.free # <<>> THEN @ ELSE @ + 1]
+               /\ hb' = [hb EXCEPT ![c] = "busy"]
+               /\ failed' = Append(failed, c)
+               /\ UNCHANGED <<hbid, futures, sentCnt, retCnt>>
           ELSE IF r.inflight < MaxId
           THEN LET id == IF r.free # <<>> THEN Head(r.free) ELSE r.highest + 1 IN
                /\ conn' = [conn EXCEPT ![c].inflight = @ + 1,
@@ -103,11 +117,11 @@ SendStep ==
                /\ hb' = [hb EXCEPT ![c] = "sent"] /\ hbid' = [hbid EXCEPT ![c] = id]
                /\ sentCnt' = [sentCnt EXCEPT ![c] = @ + 1]
                /\ futures' = Append(futures, c)
-               /\ UNCHANGED retCnt
+               /\ UNCHANGED <<retCnt, failed>>
           ELSE /\ hb' = [hb EXCEPT ![c] = "full"]                            \* no stream id left: future fails at once
                /\ futures' = Append(futures, c)
-               /\ UNCHANGED <<conn, hbid, sentCnt, retCnt>>
-    /\ UNCHANGED <<pc, failed, pre, base, round>>
+               /\ UNCHANGED <<conn, hbid, sentCnt, retCnt, failed>>
+    /\ UNCHANGED <<pc, pre, base, round>>
 
 EndSend ==
     /\ pc = "send" /\ todo = <<>>
@@ -160,7 +174,7 @@ EndRound ==
 \* between rounds: a request/response pair on the connection (capacity back to what it was, no longer idle)
 Traffic(c) ==
     /\ pc \in {"between", "ended"} /\ round < Rounds
-    /\ conn[c].alive = "ok" /\ conn[c].held /\ conn[c].idle /\ conn[c].inflight < MaxId
+    /\ conn[c].alive = "ok" /\ conn[c].held /\ conn[c].idle /\ conn[c].inflight < MaxId /\ conn[c].writable
     /\ LET r == conn[c] id == IF r.free # <<>> THEN Head(r.free) ELSE r.highest + 1 IN
        conn' = [conn EXCEPT ![c].idle = FALSE,
                             ![c].free = Append(IF r.free # <<>> THEN Tail(r.free) ELSE <<>>, id),
@@ -188,8 +202,8 @@ TypeOK ==
     /\ \A c \in Conns :
           /\ conn[c].alive \in {"ok", "defunct", "closed"} /\ conn[c].idle \in BOOLEAN
           /\ conn[c].inflight \in 0..MaxId /\ conn[c].highest \in 0..MaxId
-          /\ Range(conn[c].free) \subseteq 0..MaxId /\ conn[c].held \in BOOLEAN
-          /\ hb[c] \in {"none", "sent", "full", "timedout", "late"} \cup AnswerKinds
+          /\ Range(conn[c].free) \subseteq 0..MaxId /\ conn[c].held \in BOOLEAN /\ conn[c].writable \in BOOLEAN
+          /\ hb[c] \in {"none", "sent", "full", "busy", "timedout", "late"} \cup AnswerKinds
     /\ pc \in {"between", "send", "wait", "fail", "ended"} /\ round \in 0..Rounds
 
 \* never two OPTIONS in one round, never one on a connection that was busy / dead / full at its turn
@@ -207,7 +221,9 @@ RoundPost ==
        /\ Healthy(p) /\ ~p.idle =>                         \* had traffic: no heartbeat, idle flag reset, untouched
              /\ sentCnt[c] = 0 /\ retCnt[c] = 0
              /\ Healthy(r) /\ r.idle /\ r.inflight = p.inflight /\ Avail(r) = Avail(p)
-       /\ Healthy(p) /\ p.idle /\ p.inflight < MaxId =>    \* idle: exactly one OPTIONS
+       /\ Healthy(p) /\ p.idle /\ p.inflight < MaxId /\ ~p.writable =>   \* stuck socket: the heartbeat cannot be written = failed
+             sentCnt[c] = 0 /\ ~Healthy(r) /\ retCnt[c] = 1
+       /\ Healthy(p) /\ p.idle /\ p.inflight < MaxId /\ p.writable =>    \* idle: exactly one OPTIONS
              /\ sentCnt[c] = 1
              /\ IF hb[c] = "ok"
                 THEN /\ Healthy(r) /\ retCnt[c] = 0        \* success: capacity exactly as it was
@@ -229,5 +245,6 @@ Witness_SuccessAtLevel == ~(pc = "ended" /\ \E c \in Conns : hb[c] = "ok" /\ pre
 Witness_Timeout        == ~(pc = "ended" /\ \E c \in Conns : hb[c] = "timedout" /\ retCnt[c] = 1)
 Witness_Full           == ~(pc = "ended" /\ \E c \in Conns : hb[c] = "full" /\ retCnt[c] = 1)
 Witness_SecondRoundOk  == ~(pc = "ended" /\ round = 2 /\ \E c \in Conns : hb[c] = "ok")
+Witness_StuckAmongHealthy == ~(pc = "ended" /\ \E c, d \in Conns : hb[c] = "busy" /\ retCnt[c] = 1 /\ hb[d] = "ok" /\ Healthy(conn[d]))
 Witness_LateAnswer     == ~(pc = "ended" /\ \E c \in Conns : hb[c] = "late" /\ retCnt[c] = 1)
 =============================================================================
